@@ -162,6 +162,16 @@ Ev(e, env) ==
                         ELSE IF e.op = "And" THEN (IF p.v THEN y ELSE x) ELSE (IF p.v THEN x ELSE y)
     [] e.k = "not"   -> LET p == Truth(Ev(e.a, env)) IN IF Bad(p) THEN p ELSE Bv(~p.v)
     [] e.k = "bin"   -> Bin(e.op, Ev(e.a, env), Ev(e.b, env))
+    \* two forms OUTSIDE the documented language (the interpreted engine must reject them, wherever they sit):
+    \* a subscript with a constant index and a conditional expression -- their Python meaning:
+    [] e.k = "sub"   -> LET x == Ev(e.a, env) IN
+                        IF Bad(x) THEN x ELSE IF x.t = "missing" \/ TextLike(x) THEN Un
+                        ELSE IF IsSeq(x) THEN (IF e.i < Len(x.v) THEN x.v[e.i + 1] ELSE Err)
+                        ELSE IF x.t = "str" THEN (IF e.i < Len(x.v) THEN S(<<x.v[e.i + 1]>>) ELSE Err)
+                        ELSE Err
+    [] e.k = "ifexp" -> LET c == Truth(Ev(e.c, env)) x == Ev(e.a, env) y == Ev(e.b, env) IN      \* strict, like "bool"
+                        IF Bad(c) \/ Bad(x) \/ Bad(y) THEN (IF c.t = "err" \/ x.t = "err" \/ y.t = "err" THEN Err ELSE Un)
+                        ELSE IF c.v THEN x ELSE y
     [] e.k = "call"  -> Call1(e.f, Ev(e.a, env))
     [] e.k = "gen"   -> \* any/all( elt for x in it [if cond] )
          LET it == Ev(e.it, env) IN
